@@ -180,8 +180,26 @@ mut("ok-rc4-local-names", ["C06"], "crysp/rc4.py",
     "        ks = []\n        i = self.i\n        j = self.j\n        while len(ks)<l:",
     "behaviour-preserving", expect="clean")
 
+# a second defect on the kind of an open known finding must still be reported
+mut("c10-nullpad-other-defect", ["C10"], "crysp/padding.py",
+    "        b=Bits(m[-self.blocklen:])\n        b.size -= self.padcnt\n        return m[:-self.blocklen]+b.bytes()",
+    "        b=Bits(m[-self.blocklen:])\n        b.size -= self.padcnt+(8 if self.padcnt else 0)\n        return m[:-self.blocklen]+b.bytes()",
+    "Nullpadding.remove strips one byte more than the previous enc padded: same kind and history as the open known finding nullpadding-dec, but NOT what that finding predicts")
+
+# every repaired defect, reverted (reverse diff of the fix: commit)
+REVERTS = [("50e5c02", ["C10"]), ("e8e8bb0", ["C10", "C04"]), ("bfdcdf1", ["C10"]), ("1ad0a5d", ["C14"]),
+           ("0a5e961", ["C14", "C09"]), ("305fa72", ["C10"]), ("a2b4df7", ["C10"]), ("8f09bef", ["C06"]),
+           ("76c3fd2", ["C08"]), ("79a2167", ["C08"]), ("1f9e02c", ["C08"]), ("bdeb017", ["C20"])]
+
 os.makedirs(OUT, exist_ok=True)
 cat = []
+for sha, props in REVERTS:
+    d = subprocess.run(["git", "-C", REPO, "diff", sha, sha + "^", "--", "crysp"], capture_output=True, text=True, check=True).stdout
+    subj = subprocess.run(["git", "-C", REPO, "log", "-1", "--format=%s", sha], capture_output=True, text=True).stdout.strip()
+    fn = "revert-%s.diff" % sha
+    with open(os.path.join(OUT, fn), "w") as f:
+        f.write(d)
+    cat.append({"name": "revert-" + sha, "properties": props, "file": fn, "expect": "detected", "note": "reverts: " + subj})
 for m in M:
     src = open(os.path.join(REPO, m["file"])).read()
     if src.count(m["old"]) != 1:
